@@ -164,8 +164,11 @@ TEXT = {
     "C20": ("Theorems (all H, sources, trees, paths): a tree whose subtrees are virtual nodes over a source consistent "
             "with the materialised tree has the same root, the same navigation results and navigation errors, and the "
             "same results of writes with and without expansion (simulation relation vrel); the memo state machine of a "
-            "VirtualNode hands each child out of the source at most once. Views over virtual trees tied by "
-            "correspondence (model with VirtN + table source) and model-free comparison with the materialised tree; "
+            "VirtualNode hands each child out of the source at most once. View level (VirtualViews.v): element / field get "
+            "and set, lengths, append, pop, bit get / set, Bitlist append / pop, union value compute on the virtual tree "
+            "exactly what they compute on the materialised tree (same data, same errors, related backings), so histories "
+            "compose. Python views over VirtualNode are tied by the correspondence (model with VirtN + table source, also "
+            "write-before-read schedules) and model-free comparison with the materialised tree; "
             "per-node source-call log checked for repeats.",
             "Coq proof (simulation relation vrel, state-machine invariant) + correspondence", "5 (C20)"),
 }
